@@ -10,6 +10,10 @@ def classify(prop, cfg, impl_line, model_line):
     """is the first differing observation one the property talks about?"""
     rel = cfg.get("relevant", "RSMU")
     kind = (impl_line[:1] if impl_line and impl_line != "<end>" else model_line[:1])
+    if (impl_line or "").startswith("SERVED") or (model_line or "").startswith("SERVED"):
+        kind = "V" if "V" in rel else "C"
+    if (impl_line or "").startswith("TTL") or (model_line or "").startswith("TTL"):
+        kind = "T"
     return kind in rel, KINDS.get(kind, kind)
 
 
@@ -70,7 +74,7 @@ def run_property(prop, tier, seed, replay):
         obligations += 1  # the seq correspondence
         diffs = run_seq_suites(prop, cfg, tier, seed, work, report)
         monitor = []
-        if cfg.get("conc"):
+        if cfg.get("conc") or cfg.get("limit") or cfg.get("sweep") or cfg.get("cfg"):
             obligations += 1
             cd, monitor = run_conc_suites(prop, cfg, tier, seed, work, report)
             diffs += cd
@@ -130,7 +134,7 @@ def run_property(prop, tier, seed, replay):
                 prop, kf.get("class"), kf.get("site", "?"), kf["what"]))
     for d in diffs[:5]:
         tag, cid, trace_lines, idx, il, ml = d
-        profile = "conn" if tag.startswith("conn_") else ("conc" if tag.startswith("conc_") else "seq")
+        profile = "conn" if tag.startswith("conn_") else ("conc" if tag.startswith("conc_") else ("limit" if tag == "limit" else ("cfg" if tag == "cfg" else "seq")))
         with BuildLock():
             small = minimize(trace_lines, work, profile)
         relevant, kind = classify(prop, cfg, il, ml)
